@@ -79,7 +79,9 @@ def jitter(img, scale, pixelscale=1, oversample=1):
     kernel = np.exp(-2 * (np.pi * (scale / pixelscale) * oversample * rho) ** 2)
 
     out = np.abs(np.fft.ifft2(np.fft.fft2(img)*kernel))
-    return out * np.sum(img) / np.sum(out)  # rescale to preserve input weight
+    # rescale to preserve input weight (summed in at least double precision:
+    # the total of a half precision frame overflows its own type)
+    return out * np.sum(img, dtype=np.result_type(img.dtype, float)) / np.sum(out)
 
 
 def smear(img, distance, angle=None, pixelscale=1, oversample=1):
@@ -170,5 +172,7 @@ def smear(img, distance, angle=None, pixelscale=1, oversample=1):
     kernel = np.sinc(yy_rot * (distance / pixelscale) * oversample)
 
     out = np.abs(np.fft.ifft2(np.fft.fft2(img)*kernel))
-    return out * np.sum(img) / np.sum(out)  # rescale to preserve input weight
+    # rescale to preserve input weight (summed in at least double precision:
+    # the total of a half precision frame overflows its own type)
+    return out * np.sum(img, dtype=np.result_type(img.dtype, float)) / np.sum(out)
 
